@@ -36,6 +36,10 @@ OPS = [
     (r"\.first\(\)", ".last()"), (r"\.last\(\)", ".first()"), (r"\.rev\(\)", ""), (r"len_utf8", "len_utf16"), (r"\bi < MIN\b", "i <= MIN"),
     (r"Emission::Both", "Emission::Span"), (r"Emission::Expression", "Emission::Both"), (r"\.skipped\b", ".matched"), (r"\bcontent\.0\b", "content.1"),
     (r"at_start\(\)", "at_end()"), (r"at_end\(\)", "at_start()"), (r"\bsnapshot\(\);", "snapshot(); stack.snapshot();"),
+    # statement deletion (a call statement or a plain assignment), swapped simple arguments, dropped `?`
+    (r"^\s*[a-z_][\w.]*\([^;]*\);\s*$", ""), (r"^\s*[a-z_][\w.]* = [a-z_]\w*;\s*$", ""),
+    (r"\((\w+), (\w+)\)", r"(\2, \1)"), (r"\((\w+), (\w+), (\w+)\)", r"(\1, \3, \2)"),
+    (r"#(\w+), #(\w+)", r"#\2, #\1"), (r"\bT(\d), _(\d)\b", r"T\1, _0"), (r"\.(\d)\b", ".0"), (r"\b1\b", "2"), (r"\b0\b", "1"),
 ]
 
 
@@ -51,16 +55,24 @@ def candidates(path_filter=None):
                     continue
                 lines = open(os.path.join(dp, f)).read().split("\n")
                 in_test = False
+                dead = False
                 for i, ln in enumerate(lines):
                     if "#[cfg(test)]" in ln:
                         in_test = True       # test modules sit at the end of the files here
+                    if "#[allow(dead_code" in ln or '#[cfg(feature = "memchr")]' in ln:
+                        dead = True          # unused pest-derived helpers / code compiled only with a feature this crate does not have
+                    if dead and ln.rstrip() == "    }":
+                        dead = False
+                        continue
                     st = ln.strip()
+                    if dead:
+                        continue
                     if in_test or st.startswith("//") or st.startswith("#[") or st.startswith("use ") or "debug_assert" in ln:
                         continue
                     code = ln.split("//")[0]
                     for k, (pat, rep) in enumerate(OPS):
                         for m in re.finditer(pat, code):
-                            out.append((rel, i, m.start(), m.end(), rep, k))
+                            out.append((rel, i, m.start(), m.end(), m.expand(rep), k))
     return out
 
 
